@@ -182,9 +182,14 @@ func verifJitter() bool {
 // verifWait yields; natively it always reports that somebody else may have run.
 func verifWait() bool {
 	n := verifWaits.Add(1)
-	if n%64 == 0 {
+	switch {
+	case n%16 == 0 && n > 2000:
+		// a budget of a few seconds of wall time, so that a loaded machine does not turn a slow
+		// counterpart into a spurious "nobody else can run"
+		time.Sleep(200 * time.Microsecond)
+	case n%64 == 0:
 		time.Sleep(50 * time.Microsecond)
-	} else {
+	default:
 		runtime.Gosched()
 	}
 	return n < 200000
